@@ -117,17 +117,6 @@ Proof.
        eexists _, _; (split; [reflexivity|auto]).
 Qed.
 
-(* state after a run *)
-Fixpoint sys_exec (s : sys) (ops : list (N * N * bop)) : outcome sys :=
-  match ops with
-  | [] => Ok s
-  | (now, i, o) :: r =>
-      match sys_step s now i o with
-      | Panic k => Panic k
-      | Ok (s', _) => sys_exec s' r
-      end
-  end.
-
 Lemma sys_run_total ops : forall s, sys_ok s ->
   exists outs s', sys_run s ops = map Ok outs /\ length outs = length ops /\
     sys_exec s ops = Ok s' /\ sys_ok s' /\ s_multi s' = s_multi s /\
@@ -470,11 +459,16 @@ Qed.
 
 (* invariant of the system: the limiter invariants of the target and of every bar, plus – relative
    to the instant [f] of the last painted frame – what a frameless stretch preserves *)
-Definition sys_J (I : N) (r : rl) (bars : list mbar) (lo : N) (ts : list N) (lp : option N) : Prop :=
+(* [lo0] = the instant at which the (fresh) target was attached.  While no frame has been painted
+   no call has reached the target (its first request is always painted), so every bar's position
+   limiter is still as it was at [lo0]: fresh enough to let an update through, or with a `prev`
+   not later than [lo0] *)
+Definition sys_J (I lo0 : N) (r : rl) (bars : list mbar) (lo : N) (ts : list N) (lp : option N) : Prop :=
   rl_ok r /\ rl_interval r = I /\ rl_prev r <= lo /\
   Forall (bar_inv lo ts) bars /\
   match lp with
-  | None => 0 < rl_cap r /\ Forall (fun b => 0 < ap_cap (m_ap b)) bars
+  | None => 0 < rl_cap r /\
+            Forall (fun b => 0 < ap_cap (m_ap b) \/ ap_start (m_ap b) + ap_prev (m_ap b) <= lo0) bars
   | Some f => f <= lo /\ rl_prev r <= f /\
               Forall (fun b => ap_start (m_ap b) + ap_prev (m_ap b) < f + I) bars /\
               lo < f + I + AP_INTERVAL_NS
@@ -486,13 +480,15 @@ Proof.
   intros t' Ht'. apply H4. right. exact Ht'.
 Qed.
 
-Lemma sys_run_age (I : N) (HI : 0 < I) multi ops : forall r bars lo lp,
-  sys_J I r bars lo (map op_time ops) lp -> nondec lo (map op_time ops) ->
+Lemma sys_run_age (I lo0 : N) (HI : 0 < I) multi ops : forall r bars lo lp,
+  sys_J I lo0 r bars lo (map op_time ops) lp -> nondec lo (map op_time ops) ->
   ops_valid (length bars) ops -> ops <> [] ->
+  (lp = None -> Forall (fun b => 0 < ap_cap (m_ap b)) bars
+                \/ lo0 + AP_INTERVAL_NS <= last (map op_time ops) 0) ->
   exists f, last_paint lp (map op_time ops) (sys_run (mk_sys multi (Some r) bars) ops) = Some f
             /\ f <= last (map op_time ops) 0 /\ last (map op_time ops) 0 < f + I + AP_INTERVAL_NS.
 Proof.
-  induction ops as [|[[t i] o] rest IH]; intros r bars lo lp HJ Hnd Hval Hne; [contradiction|].
+  induction ops as [|[[t i] o] rest IH]; intros r bars lo lp HJ Hnd Hval Hne Hpre; [contradiction|].
   destruct HJ as (Hok & HIeq & Hp & Hbars & Hlp).
   cbn [map op_time fst nondec] in Hnd, Hbars, Hlp |- *. destruct Hnd as [Hlo Hnd'].
   inversion Hval as [|c rest' Hi Hval']; subst c rest'. cbn [fst snd] in Hi.
@@ -512,7 +508,7 @@ Proof.
     eapply Forall_impl; [|exact Hbars]. intros x Hx. exact (bar_inv_mono lo t _ _ x Hlo Hx). }
   assert (Hle : Forall (fun x => ap_start (m_ap x) + ap_prev (m_ap x) <= lo) bars).
   { eapply Forall_impl; [|exact Hbars]. intros x (_ & Hx1 & Hx2 & _). lia. }
-  assert (HJ' : sys_J I r' bars' t (map op_time rest) lp').
+  assert (HJ' : sys_J I lo0 r' bars' t (map op_time rest) lp').
   { unfold sys_J. splits; try assumption; try lia.
     unfold lp'. destruct fr as [x|].
     - splits; try lia. apply Forall_set_nth; [|rewrite Hst'; lia].
@@ -524,19 +520,32 @@ Proof.
           (apply Forall_set_nth; [exact Hf3 | rewrite Hst'; lia]).
       + destruct Hlp as (Hc1 & Hc2).
         pose proof (nth_error_Forall _ _ _ _ Hc2 Enth) as Hc2b. cbn beta in Hc2b.
-        destruct Hcase as [(Hc0 & _) | (Hc0 & _)]; lia. }
+        destruct Hcase as [(Hc0 & _) | (Hc0 & Hpeq & _)]; [lia|].
+        split; [exact Hc1|]. apply Forall_set_nth; [exact Hc2|].
+        right. rewrite Hst', Hpeq. lia. }
   destruct rest as [|op2 rest'].
   - cbn [map sys_run last_paint last].
     destruct HJ' as (_ & _ & _ & _ & Hlp'). unfold lp' in *.
     destruct fr as [x|].
     + exists t. splits; try reflexivity; lia.
     + destruct lp as [f|]; [exists f; splits; try reflexivity; lia|].
-      destruct (Hnone eq_refl) as (-> & Hcase). destruct Hlp as (Hc1 & Hc2).
+      destruct (Hnone eq_refl) as (_ & Hcase). destruct Hlp as (Hc1 & Hc2).
       pose proof (nth_error_Forall _ _ _ _ Hc2 Enth) as Hc2b. cbn beta in Hc2b.
-      destruct Hcase as [(Hc0 & _) | (Hc0 & _)]; lia.
+      destruct Hcase as [(Hc0 & _) | (Hc0 & _ & Hlt)]; [lia|].
+      destruct (Hpre eq_refl) as [Hall | Hlate].
+      * pose proof (nth_error_Forall _ _ _ _ Hall Enth) as Hb0. cbn beta in Hb0. lia.
+      * cbn [map last op_time fst] in Hlate. lia.
   - assert (Hval2 : ops_valid (length bars') (op2 :: rest')).
     { unfold bars'. rewrite set_nth_length. exact Hval'. }
-    destruct (IH r' bars' t lp' HJ' Hnd' Hval2) as (f & Hf1 & Hf2 & Hf3); [discriminate|].
+    assert (Hpre' : lp' = None -> Forall (fun b0 => 0 < ap_cap (m_ap b0)) bars'
+                                  \/ lo0 + AP_INTERVAL_NS <= last (map op_time (op2 :: rest')) 0).
+    { unfold lp'. destruct fr as [x|]; [discriminate|]. intros ->.
+      destruct (Hnone eq_refl) as (_ & Hcase). destruct Hlp as (Hc1 & Hc2).
+      destruct (Hpre eq_refl) as [Hall | Hlate].
+      - pose proof (nth_error_Forall _ _ _ _ Hall Enth) as Hb0. cbn beta in Hb0.
+        destruct Hcase as [(Hc0 & _) | (Hc0 & _)]; lia.
+      - right. exact Hlate. }
+    destruct (IH r' bars' t lp' HJ' Hnd' Hval2) as (f & Hf1 & Hf2 & Hf3); [discriminate | exact Hpre' |].
     exists f. split; [exact Hf1|].
     change (last (t :: map op_time (op2 :: rest')) 0) with (last (map op_time (op2 :: rest')) 0).
     split; assumption.
@@ -559,15 +568,205 @@ Proof.
   pose proof (rl_new_ok R t0 HR) as Hok.
   unfold sys_new. cbn [option_map].
   set (mb := map (fun '(tb, l) => mk_mbar 0 l 0 (ap_new tb) None) bars).
-  assert (HJ : sys_J (rl_interval_of R) (rl_new R t0) mb lo (map op_time ops) None).
+  assert (Hfresh : Forall (fun b => 0 < ap_cap (m_ap b)) mb).
+  { unfold mb. apply Forall_forall. intros x Hx. apply in_map_iff in Hx.
+    destruct Hx as ([tb l] & <- & Hin). cbn [m_ap ap_new ap_cap]. rewrite APB. lia. }
+  assert (HJ : sys_J (rl_interval_of R) lo (rl_new R t0) mb lo (map op_time ops) None).
   { unfold sys_J. splits; try assumption; try reflexivity.
     - unfold mb. apply Forall_forall. intros x Hx. apply in_map_iff in Hx.
       destruct Hx as ([tb l] & <- & Hin). unfold bar_inv. cbn [m_ap ap_new ap_start ap_prev].
       splits; [apply ap_new_ok | apply (Htb tb l Hin) | lia |].
       intros t Ht. apply (Hu t tb l Ht Hin).
-    - unfold mb. apply Forall_forall. intros x Hx. apply in_map_iff in Hx.
-      destruct Hx as ([tb l] & <- & Hin). cbn [m_ap ap_new ap_cap]. rewrite APB. lia. }
+    - eapply Forall_impl; [|exact Hfresh]. intros x Hx. left. exact Hx. }
   assert (Hval' : ops_valid (length mb) ops) by (unfold mb; rewrite map_length; exact Hval).
-  pose proof (sys_run_age (rl_interval_of R) HI multi ops _ mb lo None HJ Hnd Hval' Hne) as H.
+  pose proof (sys_run_age (rl_interval_of R) lo HI multi ops _ mb lo None HJ Hnd Hval' Hne
+                          (fun _ => or_introl Hfresh)) as H.
   rewrite API in H. exact H.
+Qed.
+
+(** ** Part 8: a draw target attached late (set_draw_target), model/Limiter.v [late_run] *)
+
+Lemma late_run_nil c ops : late_run c [] ops = sys_run (sys_new c) ops.
+Proof. destruct c as [[[multi rate] t0] bars]. reflexivity. Qed.
+
+Lemma bar_inv_lo_mono lo t ts b : lo <= t -> bar_inv lo ts b -> bar_inv t ts b.
+Proof. intros Hlo (H1 & H2 & H3 & H4). unfold bar_inv. splits; try assumption; lia. Qed.
+
+(* one call on a bar whose target paints everything (= bar side of a call on a hidden target) *)
+Lemma sys_step_free multi bars b lo t i o :
+  nth_error bars (N.to_nat i) = Some b ->
+  ap_ok (m_ap b) -> ap_start (m_ap b) <= lo -> ap_prev (m_ap b) <= lo - ap_start (m_ap b) ->
+  lo <= t -> t < ap_start (m_ap b) + U64 ->
+  exists b' out,
+    sys_step (mk_sys multi None bars) t i o = Ok (mk_sys multi None (set_nth (N.to_nat i) b' bars), out) /\
+    ap_ok (m_ap b') /\ ap_start (m_ap b') = ap_start (m_ap b) /\
+    ap_prev (m_ap b') <= t - ap_start (m_ap b).
+Proof.
+  intros Hnth Hapok Hst Hpp Hlo Hu.
+  assert (Hreq : forall x, exists x' fr,
+            sys_request (mk_sys multi None bars) (N.to_nat i) x t
+            = Ok (mk_sys multi None (set_nth (N.to_nat i) x' bars), fr) /\ m_ap x' = m_ap x).
+  { intros x. unfold sys_request. cbn [s_multi s_rl s_bars rl_opt_allow].
+    destruct multi; eexists _, _; split; reflexivity. }
+  unfold sys_step. cbn [s_bars]. rewrite Hnth.
+  assert (HI : 0 < AP_INTERVAL_NS) by (rewrite API; lia).
+  assert (HB : 0 < AP_MAX_BURST) by (rewrite APB; lia).
+  assert (Hpt : ap_prev (m_ap b) <= t - ap_start (m_ap b)) by lia.
+  destruct o as [d|d|q| |m|l|px| ].
+  1-3: unfold via_ap; cbn [with_pos m_ap m_pos m_len m_msg m_shown];
+    rewrite (ap_allow_tb (m_ap b) t Hapok) by lia;
+    pose proof (tb_step_cap _ _ HI HB _ _ _ Hpt Hapok) as Hcap;
+    destruct (tb_step AP_INTERVAL_NS AP_MAX_BURST (ap_cap (m_ap b)) (ap_prev (m_ap b)) (t - ap_start (m_ap b))) as [[c' p'] v];
+    destruct Hcap as (Hc' & Hp' & _);
+    (destruct v;
+     [ match goal with |- context [sys_request _ _ ?x _] => destruct (Hreq x) as (x' & fr & -> & Hap) end;
+       eexists x', _; (split; [reflexivity|]); rewrite Hap; cbn [m_ap ap_cap ap_prev ap_start];
+       splits; try assumption; reflexivity
+     | cbn [s_multi s_rl s_bars]; eexists _, _; (split; [reflexivity|]); cbn [m_ap ap_cap ap_prev ap_start];
+       splits; try assumption; reflexivity ]).
+  1-4: match goal with |- context [sys_request _ _ ?x _] => destruct (Hreq x) as (x' & fr & -> & Hap) end;
+       eexists x', _; (split; [reflexivity|]); rewrite Hap; cbn [m_ap]; splits; try assumption; try reflexivity; lia.
+  match goal with |- context [sys_request _ _ ?x _] => destruct (Hreq x) as (x' & fr & -> & Hap) end.
+  eexists x', _. split; [reflexivity|]. rewrite Hap. cbn [m_ap ap_reset ap_cap ap_prev ap_start].
+  rewrite (N.mod_small (t - ap_start (m_ap b)) U64) by lia.
+  splits; try assumption; try reflexivity; lia.
+Qed.
+
+Lemma last_cons_default {A} (l : list A) : forall x d d', last (x :: l) d = last (x :: l) d'.
+Proof.
+  induction l as [|y l IH]; intros x d d'; [reflexivity|].
+  change (last (x :: y :: l) d) with (last (y :: l) d).
+  change (last (x :: y :: l) d') with (last (y :: l) d'). apply IH.
+Qed.
+
+Lemma sys_exec_free multi ops : forall bars lo ts2,
+  Forall (bar_inv lo (map op_time ops ++ ts2)) bars -> nondec lo (map op_time ops) ->
+  ops_valid (length bars) ops ->
+  exists bars', sys_exec (mk_sys multi None bars) ops = Ok (mk_sys multi None bars') /\
+    length bars' = length bars /\ Forall (bar_inv (last (map op_time ops) lo) ts2) bars'.
+Proof.
+  induction ops as [|[[t i] o] rest IH]; intros bars lo ts2 Hbars Hnd Hval.
+  - exists bars. cbn [sys_exec map last app] in *. auto.
+  - cbn [map op_time fst nondec app] in Hnd, Hbars. destruct Hnd as [Hlo Hnd'].
+    inversion Hval as [|c rest' Hi Hval']; subst c rest'. cbn [fst snd] in Hi.
+    destruct (nth_error bars (N.to_nat i)) as [b|] eqn:Enth; [|apply nth_error_None in Enth; lia].
+    destruct (nth_error_Forall _ _ _ _ Hbars Enth) as (Hapok & Hst & Hpp & Hu64).
+    assert (Hut : t < ap_start (m_ap b) + U64) by (apply Hu64; left; reflexivity).
+    destruct (sys_step_free multi bars b lo t i o Enth Hapok Hst Hpp Hlo Hut)
+      as (b' & out & Hstep & Hapok' & Hst' & Hpp').
+    cbn [sys_exec]. rewrite Hstep.
+    set (bars1 := set_nth (N.to_nat i) b' bars).
+    assert (Hbars1 : Forall (bar_inv t (map op_time rest ++ ts2)) bars1).
+    { apply Forall_set_nth.
+      - eapply Forall_impl; [|exact Hbars]. intros x Hx. exact (bar_inv_mono lo t _ _ x Hlo Hx).
+      - unfold bar_inv. rewrite Hst'. splits; try assumption; try lia.
+        intros t' Ht'. apply Hu64. right. exact Ht'. }
+    assert (Hval1 : ops_valid (length bars1) rest) by (unfold bars1; rewrite set_nth_length; exact Hval').
+    destruct (IH bars1 t ts2 Hbars1 Hnd' Hval1) as (bars' & Hex & Hlen & Hfin).
+    exists bars'. split; [exact Hex|]. split; [unfold bars1 in Hlen; rewrite set_nth_length in Hlen; exact Hlen|].
+    cbn [map op_time fst]. destruct rest as [|c2 rest2]; [exact Hfin|].
+    change (last (t :: map op_time (c2 :: rest2)) lo) with (last (map op_time (c2 :: rest2)) lo).
+    cbn [map] in Hfin |- *. rewrite (last_cons_default _ _ lo t). exact Hfin.
+Qed.
+
+Lemma last_paint_hidden ts : forall (outs : list (bool * option (list frame))) acc ts2 vs2,
+  length outs = length ts ->
+  last_paint acc (ts ++ ts2) (map hide (map Ok outs) ++ vs2) = last_paint acc ts2 vs2.
+Proof.
+  induction ts as [|t r IH]; intros outs acc ts2 vs2 Hlen; destruct outs as [|[re fr] outs']; try discriminate Hlen.
+  - reflexivity.
+  - cbn [map app hide last_paint]. apply IH. injection Hlen as Hlen. exact Hlen.
+Qed.
+
+Lemma last_paint_In ts : forall vs acc f, last_paint acc ts vs = Some f -> acc = Some f \/ In f ts.
+Proof.
+  induction ts as [|t r IH]; intros vs acc f H; cbn [last_paint] in H; [left; exact H|].
+  destruct vs as [|v vr]; [left; exact H|].
+  destruct (IH _ _ _ H) as [Ha | Hin]; [|right; right; exact Hin].
+  destruct v as [[re [x|]]|k]; try (left; exact Ha). injection Ha as <-. right. left. reflexivity.
+Qed.
+
+Lemma nondec_In ts : forall lo t, nondec lo ts -> In t ts -> lo <= t.
+Proof.
+  induction ts as [|x r IH]; intros lo t Hnd Hin; [destruct Hin|].
+  cbn [nondec] in Hnd. destruct Hnd as [H1 H2]. destruct Hin as [<- | Hin]; [exact H1|].
+  specialize (IH _ _ H2 Hin). lia.
+Qed.
+
+Lemma last_In_nondec ts : forall lo, nondec lo ts -> lo <= last ts lo.
+Proof.
+  induction ts as [|x r IH]; intros lo Hnd; cbn [last]; [lia|].
+  cbn [nondec] in Hnd. destruct Hnd as [H1 H2]. destruct r as [|y r']; [exact H1|].
+  specialize (IH x H2).
+  rewrite (last_cons_default _ _ lo x). lia.
+Qed.
+
+Lemma last_le ts : forall d x, d <= x -> (forall t, In t ts -> t <= x) -> last ts d <= x.
+Proof.
+  induction ts as [|y r IH]; intros d x Hd Hall; cbn [last]; [exact Hd|].
+  destruct r as [|z r']; [apply Hall; left; reflexivity|].
+  apply IH; [exact Hd|]. intros t Ht. apply Hall. right. exact Ht.
+Qed.
+
+(* FRAME AGE AFTER A LATE ATTACH.  A stand-alone bar created at [tb] on a hidden target receives
+   the calls [pre] (whatever they do to its position limiter); at [t0] a target with refresh rate
+   R is attached; then the calls [ops].  At the instant of every call that comes at least 1 ms
+   after the attach a frame has been painted SINCE the attach and the most recent one is younger
+   than one refresh interval plus 1 ms. *)
+Theorem late_frame_age R t0 tb len0 pre ops : 1 <= R <= 255 -> tb <= t0 ->
+  nondec tb (map op_time pre) -> (forall t, In t (map op_time pre) -> t <= t0) ->
+  ops_valid 1 pre -> ops_valid 1 ops -> ops <> [] -> nondec t0 (map op_time ops) ->
+  (forall t, In t (map op_time (pre ++ ops)) -> t < tb + U64) ->
+  t0 + 1000000 <= last (map op_time ops) 0 ->
+  exists f, last_paint None (map op_time (pre ++ ops))
+              (late_run (false, Some R, t0, [(tb, len0)]) pre ops) = Some f
+            /\ t0 <= f /\ f <= last (map op_time ops) 0
+            /\ last (map op_time ops) 0 < f + rl_interval_of R + 1000000.
+Proof.
+  intros HR Htb Hndp Hple Hvalp Hvalo Hne Hndo Hu Hlate.
+  destruct (rl_interval_facts R HR) as (HI & _).
+  unfold late_run, sys_new. cbn [option_map map].
+  set (b0 := mk_mbar 0 len0 0 (ap_new tb) None).
+  assert (Hb0 : Forall (bar_inv tb (map op_time pre ++ map op_time ops)) [b0]).
+  { constructor; [|constructor]. unfold bar_inv, b0. cbn [m_ap ap_new ap_start ap_prev].
+    splits; [apply ap_new_ok | lia | lia |]. intros t Ht. apply Hu. rewrite map_app. exact Ht. }
+  destruct (sys_exec_free false pre [b0] tb (map op_time ops) Hb0 Hndp Hvalp) as (bars1 & Hex & Hlen & Hfin).
+  assert (Hok0 : sys_ok (mk_sys false None [b0])) by exact Logic.I.
+  destruct (sys_run_total pre _ Hok0) as (outs & s1 & Hrun & Hlo & _).
+  rewrite Hex, Hrun. unfold sys_attach. cbn [s_multi s_bars option_map].
+  rewrite map_app, last_paint_hidden by (rewrite map_length; exact Hlo).
+  pose proof (last_le (map op_time pre) tb t0 Htb Hple) as Hlast.
+  assert (Hbars1 : Forall (bar_inv t0 (map op_time ops)) bars1).
+  { eapply Forall_impl; [|exact Hfin]. intros x Hx. exact (bar_inv_lo_mono _ t0 _ x Hlast Hx). }
+  pose proof (rl_new_ok R t0 HR) as Hok.
+  assert (HJ : sys_J (rl_interval_of R) t0 (rl_new R t0) bars1 t0 (map op_time ops) None).
+  { unfold sys_J. splits; try assumption; try reflexivity.
+    eapply Forall_impl; [|exact Hbars1]. intros x (_ & Hx1 & Hx2 & _). right. lia. }
+  assert (Hvalo' : ops_valid (length bars1) ops) by (rewrite Hlen; exact Hvalo).
+  assert (Hpre : @None N = None -> Forall (fun b => 0 < ap_cap (m_ap b)) bars1
+                                \/ t0 + AP_INTERVAL_NS <= last (map op_time ops) 0).
+  { intros _. right. rewrite API. exact Hlate. }
+  destruct (sys_run_age (rl_interval_of R) t0 HI false ops _ bars1 t0 None HJ Hndo Hvalo' Hne Hpre)
+    as (f & Hf1 & Hf2 & Hf3).
+  exists f. rewrite API in Hf3. splits; try assumption.
+  destruct (last_paint_In _ _ _ _ Hf1) as [Hn | Hin]; [discriminate Hn|].
+  exact (nondec_In _ _ _ Hndo Hin).
+Qed.
+
+(* ... and the 1 ms are needed: ten inc at 0.4 ms on the hidden target drain the bar's position
+   limiter; a 1 Hz target is attached at 0.5 ms; the inc at 0.5 ms and at 0.9 ms are both
+   swallowed by the bar's own limiter (its `prev` is 0, the next token matures at 1 ms): no frame
+   although the target's bucket is full.  (The audit's counterexample, docs/AUDIT3.md finding 25.) *)
+Theorem late_frame_age_refuted :
+  exists pre ops,
+    nondec 0 (map op_time pre) /\ (forall t, In t (map op_time pre) -> t <= 500000) /\
+    ops_valid 1 pre /\ ops_valid 1 ops /\ ops <> [] /\ nondec 500000 (map op_time ops) /\
+    last_paint None (map op_time (pre ++ ops))
+      (late_run (false, Some 1, 500000, [(0, 100)]) pre ops) = None.
+Proof.
+  exists (map (fun _ => (400000, 0, OInc 1)) (seq 0 10)), [(500000, 0, OInc 1); (900000, 0, OInc 1)].
+  splits; try (vm_compute; repeat split; discriminate).
+  - intros t Ht. vm_compute in Ht. repeat (destruct Ht as [<- | Ht]; [vm_compute; discriminate|]). destruct Ht.
+  - unfold ops_valid. vm_compute. repeat constructor.
+  - unfold ops_valid. vm_compute. repeat constructor.
 Qed.
